@@ -251,7 +251,9 @@ ARENA = {
     'C07': dict(
         x=['panic', 'block-contents-changed', 'base-allocator-ledger', 'stats-identity', 'live-blocks-overlap'],
         mism=['result-kind', 'base-allocator-events', 'stats'],
-        note='PARTIAL: arena-level failure theorems proved; collection-level atomicity not modelled yet'),
+        colls_x=['overflow:', 'a failed reserve'],
+        search_x=True,
+        note='PARTIAL: arena-level failure theorems proved; collection-level atomicity (a failed push/reserve keeps length and contents; overflowing requests are errors) is probed on the implementation only'),
     'C10': dict(
         x=['stats-identity', 'chunk-list-forward-backward-differ', 'chunk-not-larger-than-predecessor',
            'chunk-size-not-multiple-of-16', 'position-outside-content-range', 'position-not-multiple-of-min-align',
@@ -440,8 +442,8 @@ def check_arena(ctx):
         seeds = [ctx.seed] if ctx.tier == 'quick' else [ctx.seed, ctx.seed + 1000003]
         binname = 'arena_x' if pid in ARENA_X else 'arena'
         res = run_arena(ctx, runs, ops, seeds, binname=binname)
-        if res is not None and pid in ARENA_X and ctx.tier == 'thorough':
-            res_b = run_arena(ctx, runs, ops, seeds, binname='arena')
+        if res is not None and ctx.tier == 'thorough' and (pid in ARENA_X or conf.get('search_x')):
+            res_b = run_arena(ctx, runs, ops, seeds, binname='arena' if pid in ARENA_X else 'arena_x')
             if res_b is not None:
                 arena_verdict(ctx, pid, res_b, conf)
         if res is not None:
@@ -452,10 +454,21 @@ def check_arena(ctx):
                 res2 = run_arena(ctx, 3000, 120, [ctx.seed + 7, ctx.seed + 77], binname=binname)
                 if res2 is not None:
                     rel2 = arena_verdict(ctx, pid, res2, conf)
+                    if not ctx.violations and conf.get('search_x') and binname == 'arena':
+                        # the collections on top of the arena (MutBumpVec growth with refused requests)
+                        res3 = run_arena(ctx, 1500, 80, [ctx.seed, ctx.seed + 7], binname='arena_x')
+                        if res3 is not None:
+                            arena_verdict(ctx, pid, res3, conf)
                     for k in ('runs', 'steps', 'nontrivial_steps'):
                         res['summary'][k] += res2['summary'][k]
                     if (rel or rel2) and not ctx.violations and not any(p[0] == 'tie' for p in ctx.problems):
                         ctx.problems.append(('tie', 'model and implementation disagree; first: %s' % ((rel or rel2)[0][1][:600])))
+            if conf.get('colls_x'):
+                rc_ = run_colls(ctx, 6000 if ctx.tier == 'quick' else 60000, [ctx.seed])
+                if rc_ is not None:
+                    for (b, case, xl) in rc_['implx']:
+                        if any(k in xl for k in conf['colls_x']):
+                            ctx.violations.append({'kind': 'colls-probe', 'build': b, 'what_fails': xl, 'signature': 'colls:' + re.sub(r'[0-9]+', 'N', xl)[:80]})
             S = res['summary']
             ctx.cov.update({
                 'evaluations': S['steps'],
@@ -504,3 +517,156 @@ def replay_arena(ctx, path):
 for _p in ARENA:
     globals()['check_' + _p] = check_arena
     globals()['replay_' + _p] = replay_arena
+
+
+# ----------------------------------------------------------------------------------------
+# collection algorithms: C06 C08 C16 (and the collection-level clauses of C07)
+# ----------------------------------------------------------------------------------------
+COLLS = {
+    'C06': dict(x=['accounted', 'lost', 'unknown element', 'stale slot'],
+                note='PARTIAL: conservation proved for the modelled algorithms; splice / map / into_iter / append / partition are covered by the drop-count monitor only'),
+    'C08': dict(x=['std::vec::Vec', 'contents differ', 'returned values differ', 'capacity:', 'accounted', 'lost'],
+                note='PARTIAL: list-function refinement proved for the modelled operations; capacity clauses and unmodelled operations are checked against std::vec::Vec in lock-step only'),
+    'C16': dict(x=['split_off capacities', 'split_off part', 'changed the remaining part', 'changed the split-off part'],
+                ops=['split_off'],
+                note='PARTIAL: split_off (rotate in place) proved against its specification; split_at/first/last, partition, merge and part independence are checked on the implementation only'),
+}
+
+
+def run_colls(ctx, cases, seeds, inputs_file=None):
+    res = {'summary': {'cases': 0, 'mismatches': 0, 'impl_monitor_failures': 0, 'unwound': 0, 'with_drop_panic': 0, 'nontrivial': 0, 'distinct': 0, 'by_kind_op': {}},
+           'implx': [], 'mism': [], 'samples': []}
+    for release in (False, True):
+        exe = ctx.cargo_build('colls', release=release)
+        if exe is None:
+            return None
+        b = 'release' if release else 'debug'
+        for sd in seeds:
+            trace = os.path.join(CACHE, 'colls_%s_%s_%d.txt' % (ctx.pid, b, sd))
+            cmd = ('%s --input %s > %s' % (exe, inputs_file, trace)) if inputs_file else ('%s --seed %d --cases %d > %s' % (exe, sd, cases, trace))
+            rc, out, dt = sh(cmd, timeout=1800)
+            if rc != 0:
+                ctx.problems.append(('harness', 'colls harness crashed rc=%d %s' % (rc, out[-300:])))
+            rc2, out2, _ = sh('%s colls < %s' % (DRV, trace), timeout=1800)
+            if rc2 != 0:
+                ctx.problems.append(('driver', 'drv colls failed: ' + out2[-400:]))
+                continue
+            # case line preceding each X line = the input of that monitor failure
+            last_case = None
+            xs = []
+            with open(trace) as f:
+                for l in f:
+                    l = l.rstrip('\n')
+                    if l.startswith('C '):
+                        last_case = l
+                        if len(res['samples']) < 6:
+                            res['samples'].append(l[:200])
+                    elif l.startswith('X '):
+                        xs.append((b, last_case, l))
+            res['implx'] += xs
+            for l in out2.split('\n'):
+                if l.startswith('MISMATCH'):
+                    res['mism'].append((b, l))
+                elif l.startswith('SUMMARY'):
+                    s = json.loads(l[len('SUMMARY '):])
+                    S = res['summary']
+                    for k, v in s.items():
+                        if isinstance(v, dict):
+                            for kk, vv in v.items():
+                                S[k][kk] = S[k].get(kk, 0) + vv
+                        else:
+                            S[k] = S.get(k, 0) + v
+            os.remove(trace)
+    return res
+
+
+def colls_verdict(ctx, pid, res, conf):
+    for (b, case, xl) in res['implx']:
+        msg = xl.split('::', 1)[1].strip() if '::' in xl else xl
+        if not any(k in msg for k in conf['x']):
+            continue
+        if pid == 'C16' and 'split_off' not in xl:
+            continue
+        ctx.violations.append({'kind': 'colls-case', 'build': b, 'case': case, 'what_fails': xl,
+                               'signature': 'colls:%s' % re.sub(r'[0-9]+', 'N', msg)[:80],
+                               'how_to_replay': 'tools/vcheck %s --replay <this file>' % pid})
+    rel = [(b, l) for (b, l) in res['mism'] if (pid != 'C16' or ' split_off ' in l)]
+    if rel and not ctx.violations:
+        # a disagreement between model and implementation on what is kept / handed out / dropped
+        # is itself an observable difference from the proved behaviour: report the case
+        b, l = rel[0]
+        ctx.problems.append(('tie', 'collection model and implementation disagree on %d case(s); first: %s' % (len(rel), l[:700])))
+    return rel
+
+
+def check_colls(ctx):
+    pid = ctx.pid
+    conf = COLLS[pid]
+    target = 'Properties/' + pid
+    ctx.regen()
+    ok, out = ctx.coq_build(target)
+    nthm, nclosed = (0, 0)
+    if ok:
+        nthm, nclosed = ctx.check_assumptions(target, out)
+    else:
+        nthm = len(ctx.pinned(target)[0])
+    ctx.grep_forbidden()
+    if ctx.tier == 'thorough' and ok:
+        ctx.coqchk(target)
+    if ctx.build_driver():
+        cases = 30_000 if ctx.tier == 'quick' else 600_000
+        seeds = [ctx.seed] if ctx.tier == 'quick' else [ctx.seed, ctx.seed + 1000003]
+        res = run_colls(ctx, cases, seeds)
+        if res is not None:
+            rel = colls_verdict(ctx, pid, res, conf)
+            if (rel or ctx.problems) and not ctx.violations:
+                ctx.say('proof or tie broken: searching for a concrete failing case')
+                ctx.problems = [p for p in ctx.problems if p[0] != 'tie']
+                res2 = run_colls(ctx, 400_000, [ctx.seed + 7, ctx.seed + 77])
+                if res2 is not None:
+                    rel2 = colls_verdict(ctx, pid, res2, conf)
+                    res['summary']['cases'] += res2['summary']['cases']
+                    if (rel or rel2) and not ctx.violations and not any(p[0] == 'tie' for p in ctx.problems):
+                        ctx.problems.append(('tie', 'collection model and implementation disagree; first: %s' % ((rel or rel2)[0][1][:700])))
+            S = res['summary']
+            ctx.cov.update({
+                'evaluations': S['cases'],
+                'distinct_nontrivial': min(S['nontrivial'], S['distinct']),
+                'rule': 'one operation per case on a freshly built collection (BumpVec, MutBumpVec, FixedBumpVec, BumpBox<[T]>, MutBumpVecRev mirrored) of 0..12 identified elements; operations truncate/pop/remove/swap_remove/insert/push/retain/dedup_by/drain (both ends, dropped / keep_rest / leaked)/extract_if (early drop)/split_off with boundary and out-of-range arguments; callback answers scripted per invocation with a panic at a random invocation in 1/3 of the cases; a panicking Drop in 1/8; every case replayed on the extracted Coq model (kept / handed out / dropped / unwound / number of callback invocations compared) and on std::vec::Vec in lock-step; plus overflow probes of try_reserve(_exact). non-trivial = cases that dropped, handed out or unwound (counted by the driver); distinct = distinct (kind, op, renumbered input, answers, drop-panic set)',
+                'samples': res['samples'],
+                'traces_validated_against_impl': S['cases'],
+                'input_distribution': {'by_kind_op': S['by_kind_op'], 'unwound': S['unwound'], 'with_drop_panic': S['with_drop_panic']},
+                'mismatches': {'model_vs_impl': S['mismatches'], 'impl_monitor_failures': S['impl_monitor_failures']},
+                'partial_note': conf['note'],
+            })
+    return ctx.finish(level='proof', obligations=nthm, discharged=nclosed,
+                      checker_cmd='make -C coq Properties/%s.vo (coqc 8.16.1; Print Assumptions under each theorem)' % pid + ('; coqchk -o' if ctx.tier == 'thorough' else ''),
+                      extra_assumptions=['hand-written list-level model (coq/Colls.v) of the slot algorithms: moved-from / dropped slots between the write and read cursors are not represented (they are what the panic guards skip); tied to the code by the correspondence check; ' + conf['note'],
+                                         'a second panic while unwinding (abort) is outside the model'])
+
+
+def replay_colls(ctx, path):
+    r = json.load(open(path))
+    if r.get('kind') != 'colls-case' or not r.get('case'):
+        print(json.dumps(r, indent=1)[:3000])
+        return check_colls(ctx)
+    inp = os.path.join(CACHE, 'replay_colls_%s.txt' % ctx.pid)
+    with open(inp, 'w') as f:
+        f.write(r['case'] + '\n')
+    if not ctx.build_driver():
+        return 1
+    res = run_colls(ctx, 0, [0], inputs_file=inp)
+    colls_verdict(ctx, ctx.pid, res, COLLS[ctx.pid])
+    for v in ctx.violations[:3]:
+        print('reproduced:', v.get('what_fails'))
+    if ctx.violations or ctx.problems:
+        p = ctx.write_replay('violation', r)
+        print('VIOLATION property=%s replay=%s' % (ctx.pid, p))
+        return 1
+    print('the recorded case no longer fails on the current tree')
+    return 0
+
+
+for _p in COLLS:
+    globals()['check_' + _p] = check_colls
+    globals()['replay_' + _p] = replay_colls
